@@ -204,7 +204,7 @@ def rule_read(c, prog):
             for arm in n["arms"]:
                 e = arm["pat"].get("e", {})
                 if "ProtectedStringDummy" in (e.get("defargs") or ""):
-                    ok = any(x.get("k") == "Call" and (x["f"].get("def") or "").endswith("Variant::String") for x in core.walk(arm["body"]))
+                    ok = any(x.get("k") == "Call" and (x["f"].get("def") or "").endswith("Variant::String") for x in common.walk_inline(prog, arm["body"], "rbx_xml::types::"))
     tagv = [common.const_value(prog, it["path"]) for imp in prog.impls if imp.get("trait") == XT and "ProtectedStringDummy" in imp["self"] for it in imp["items"] if it["name"] == "XML_TAG_NAME"]
     if ok and tagv == ["ProtectedString"]:
         c.ok(R, "ProtectedString->String")
@@ -268,7 +268,7 @@ def rule_read(c, prog):
         if n.get("k") == "Match" and n.get("src") == "Normal":
             for arm in n["arms"]:
                 if arm["pat"].get("k") == "Wild":
-                    ok = any(x.get("k") == "MethodCall" and x["m"] == "eat_unknown_tag" for x in core.walk(arm["body"])) and not any(x.get("k") == "Ret" and core.as_try(x) is None and "Err" in core.fingerprint(x.get("e", {}), 3) for x in core.walk(arm["body"]))
+                    ok = any(x.get("k") == "MethodCall" and x["m"] == "eat_unknown_tag" for x in common.walk_inline(prog, arm["body"], "rbx_xml::types::")) and not any(x.get("k") == "Ret" and core.as_try(x) is None and "Err" in core.fingerprint(x.get("e", {}), 3) for x in common.walk_inline(prog, arm["body"], "rbx_xml::types::"))
     if ok:
         c.ok(R, "unknown-type:eaten")
     else:
